@@ -81,6 +81,10 @@ for t in D["targets"]:
         elif t["item_form"] == "dict":
             items = [{"infile": i[0], "outfile": i[1]} for i in items]
         fn = Stepper() if t.get("callable_class") else step
+        if t.get("one_shot") == "iter":
+            items = iter(items)        # map takes any iterable, also one that can be walked only once
+        elif t.get("one_shot") == "gen":
+            items = (i for i in items)
         if t["naming"] == "default":
             gwf.map(fn, items)
         elif t["naming"] == "string":
@@ -113,7 +117,8 @@ def _where(draw):
             items = [[f"src{i}_{j}.txt", f"out{i}_{j}.txt"] for j in range(k)]
             targets.append({"how": "map", "name": name, "items": items, "item_form": draw(st.sampled_from(["tuple", "dict"])),
                             "naming": draw(st.sampled_from(["default", "string", "function"])),
-                            "callable_class": draw(st.booleans())})
+                            "callable_class": draw(st.booleans()),
+                            "one_shot": draw(st.sampled_from([None, None, "iter", "gen"]))})
             prev_out = items[0][1]
         else:
             t = {"how": how, "name": name, "inputs": inp, "outputs": [out]}
@@ -269,7 +274,12 @@ def run_where(case):
             # a relative -f with a directory part that only resolves against an ancestor of the invoking directory
             ("ancestor-rel", other, ["-f", "proj/workflow.py"]),
             ("nested-named", os.path.join(proj_dir, "nested", "deeper"), ["-f", "workflow.py:gwf"]),
+            # `..` after a directory symlink: the operating system resolves lnk/.. to the parent of the directory the
+            # link points to (here: the directory that holds the project), not to the invoking directory
+            ("symlink-dotdot", other, ["-f", "lnk/../proj/workflow.py"]),
         ]
+        os.makedirs(os.path.join(base, "sibling"), exist_ok=True)
+        os.symlink(os.path.join(base, "sibling"), os.path.join(other, "lnk"))
         # decoys: files with the same base name closer to the invoking directories must not be picked up for
         # `-f proj/workflow.py`
         with open(os.path.join(base, "elsewhere", "workflow.py"), "w") as f:
